@@ -230,4 +230,104 @@ theorem typed_companions_aligned (k : FieldKind) (cells : List Csv.Bytes) (imp :
     have := Exetera.Props.C06.cellsMapE_length dateCell cells rs (toOption_eq_some hrs)
     exact ⟨by simp [Imp.lengths, this], fun _ h => by cases h⟩
 
+
+/-! ### non-vacuity: a file with a leaky categorical, an `int8` (allow_empty) and a date column, `chunk_row_size = 3` -/
+
+/-- header `a,b,c`; records `yes,12,2020-06-15` / ` maybe,,` / `no,"7",2021-03-04` (window 18 bytes: one record per kernel call;
+    the free text `maybe` does not fit what is left of the 9-byte budget of column `a`: one regrowth) -/
+def tyHeader : List Cell := [⟨false, [97]⟩, ⟨false, [98]⟩, ⟨false, [99]⟩]
+def tyRows : List (List Cell) :=
+  [[⟨false, [121, 101, 115]⟩, ⟨false, [49, 50]⟩, ⟨false, [50, 48, 50, 48, 45, 48, 54, 45, 49, 53]⟩],
+   [⟨false, [32, 109, 97, 121, 98, 101]⟩, ⟨false, []⟩, ⟨false, []⟩],
+   [⟨false, [110, 111]⟩, ⟨true, [55]⟩, ⟨false, [50, 48, 50, 49, 45, 48, 51, 45, 48, 52]⟩]]
+def tyCats : List (Csv.Bytes × Int) := [([121, 101, 115], 1), ([110, 111], 0)]
+def tyInt : FieldKind := .numeric (.intRange (-128) 127) .allowEmpty [48] (.int 0)
+def tySchema : List (String × FieldKind) := [("a", .leaky tyCats), ("b", tyInt), ("c", .date)]
+
+theorem tyLeaky_ok : KindOK (.leaky tyCats) := by
+  show (tyCats.map (·.1)).Nodup
+  decide
+theorem tyInt_ok : KindOK tyInt := by
+  refine ⟨fun t h => ?_, by decide⟩
+  simp [NumParser.parse, parseIntRange_blank _ _ t h]
+
+theorem tyRegime : Regime (render (tyHeader :: tyRows)) 3 3 tyHeader tyRows := by
+  refine ⟨Or.inl rfl, by decide, ⟨rfl, ?_⟩, ⟨by decide, ?_⟩, by decide, ?_⟩
+  · intro c hc
+    simp only [tyHeader, List.mem_cons, List.not_mem_nil, or_false] at hc
+    rcases hc with h | h | h <;> subst h <;> simp [Cell.WF] <;> decide
+  · intro r hr
+    simp only [tyRows, List.mem_cons, List.not_mem_nil, or_false] at hr
+    rcases hr with h | h | h <;> subst h <;> refine ⟨rfl, ?_⟩ <;> intro c hc <;>
+      simp only [List.mem_cons, List.not_mem_nil, or_false] at hc <;> rcases hc with h | h | h <;> subst h <;>
+      simp [Cell.WF] <;> decide
+  · intro l hl
+    simp only [tyHeader, tyRows, List.mem_cons, List.not_mem_nil, or_false] at hl
+    rcases hl with h | h | h | h <;> subst h <;> decide
+
+/-- every cell of the example is acceptable to its importer -/
+example : ∀ cell ∈ column (values tyRows) 1, cellOK tyInt cell := by decide
+example : ∀ cell ∈ column (values tyRows) 2, cellOK .date cell := by decide
+
+/-- C06's specification of the three whole columns -/
+example : typedSpec (.leaky tyCats) (column (values tyRows) 0) =
+    some { kind := .leaky tyCats, codes := [1, -1, 0], idx := [0, 0, 5, 5], vals := [109, 97, 121, 98, 101], acc := 5 } := by
+  decide
+example : typedSpec tyInt (column (values tyRows) 1) =
+    some { kind := tyInt, nums := [.int 12, .int 0, .int 7], valids := [true, false, true] } := by decide
+example : typedSpec .date (column (values tyRows) 2) =
+    some { kind := .date, codes := [1592179200000000, 0, 1614816000000000],
+           days := [[50, 48, 50, 48, 45, 48, 54, 45, 49, 53], List.replicate 10 0, [50, 48, 50, 49, 45, 48, 51, 45, 48, 52]],
+           valids := [true, false, true] } := by decide +kernel
+
+/-- all hypotheses of `read_csv_typed_eq_spec` hold for that file, schema and `chunk_row_size = 3`: the theorem applies -/
+example : ∃ fields, readCsv (render (tyHeader :: tyRows)) ["a", "b", "c"] tySchema none none 3 12 = .ok ⟨3, fields⟩ ∧
+    fields.map (·.name) = ["a", "b", "c"] ∧
+    ∀ f ∈ fields, typedSpec (kindOf tySchema f.name) (column (values tyRows) (["a", "b", "c"].idxOf f.name)) = some f.imp := by
+  have hk : ∀ k ∈ ["a", "b", "c"], KindOK (kindOf tySchema k) := by
+    intro k hk
+    simp only [List.mem_cons, List.not_mem_nil, or_false] at hk
+    rcases hk with rfl | rfl | rfl
+    · exact tyLeaky_ok
+    · exact tyInt_ok
+    · trivial
+  have hok : ∀ k ∈ fieldsToUse ["a", "b", "c"] none none, ∀ cell ∈ column (values tyRows) (["a", "b", "c"].idxOf k),
+      cellOK (kindOf tySchema k) cell := by
+    intro k hk
+    simp only [fieldsToUse, List.mem_cons, List.not_mem_nil, or_false] at hk
+    rcases hk with rfl | rfl | rfl <;> decide
+  exact read_csv_typed_eq_spec (ncols := 3) ["a", "b", "c"] tySchema none none rfl (fun _ h => by cases h)
+    (fun _ h => by cases h) hk tyRegime hok 12 (by decide +kernel)
+
+/-- the model evaluated on that file with a bool column in place of the categorical one (`chunk_row_size = 3`: one record per
+    kernel call) yields exactly C06's specification of the whole columns -/
+def tySchemaB : List (String × FieldKind) := [("a", .bool .relaxed true), ("b", tyInt), ("c", .date)]
+
+example : (match readCsv (render (tyHeader :: tyRows)) ["a", "b", "c"] tySchemaB none none 3 12 with
+           | .ok o => decide (o.rows = 3 ∧ o.fields.map (·.name) = ["a", "b", "c"] ∧
+               o.fields.map (fun f => some f.imp) =
+                 [typedSpec (.bool .relaxed true) (column (values tyRows) 0), typedSpec tyInt (column (values tyRows) 1),
+                  typedSpec .date (column (values tyRows) 2)])
+           | .error _ => false) = true := by
+  decide +kernel
+
+example : typedSpec (.bool .relaxed true) (column (values tyRows) 0) =
+    some { kind := .bool .relaxed true, bools := [true, true, false], valids := [true, false, true] } := by decide
+
+/-- the same file with `chunk_row_size = 40` (one window, one kernel call): the same destination -/
+example : (match readCsv (render (tyHeader :: tyRows)) ["a", "b", "c"] tySchemaB none none 40 12,
+                 readCsv (render (tyHeader :: tyRows)) ["a", "b", "c"] tySchemaB none none 3 12 with
+           | .ok o₁, .ok o₂ => decide (o₁ = o₂)
+           | _, _ => false) = true := by
+  decide +kernel
+
+/-- strict mode: the empty cell of column `b` is not acceptable, and the import raises -/
+example : ¬ (∀ cell ∈ column (values tyRows) 1,
+    cellOK (.numeric (.intRange (-128) 127) .strict [48] (.int 0)) cell) := by decide
+example : (match readCsv (render (tyHeader :: tyRows)) ["a", "b", "c"]
+                   [("b", .numeric (.intRange (-128) 127) .strict [48] (.int 0))] none none 3 12 with
+           | .error (.valueError _) => true
+           | _ => false) = true := by
+  decide +kernel
+
 end Exetera.Props.C05
